@@ -310,15 +310,15 @@ def obligations(tier):
     for tls in (False, True):
         cls = "ServerTls" if tls else "Server"
         base = dict(peers_pre=["A", "B"], peers_new=["A", "B", "C"], states=STATES[:6 if tls else 5])
-        out.append(Ob("%s/accept" % cls, h, dict(tls=tls, op="accept", m=m), budget=300 if quick else 900,
+        out.append(Ob("%s/accept" % cls, h, dict(tls=tls, op="accept", m=m), hang_s=240, budget=300 if quick else 900,
                       covers=["replaced-existing", "replaced-stale", "new-peer", "repeated-peer-in-one-call"],
                       bounds=dict(base, queued_connections=[1, m], steps="1 (inductive) from any table state")))
         for op in ("closeIx", "removeIx", "removeIx-noclose"):
-            out.append(Ob("%s/%s" % (cls, op), h, dict(tls=tls, op=op, m=0), budget=200,
+            out.append(Ob("%s/%s" % (cls, op), h, dict(tls=tls, op=op, m=0), hang_s=240, budget=200,
                           covers=["no-such-entry", "entry-present"] + (["had-socket"] if op != "removeIx-noclose" else []),
                           bounds=dict(base, steps="1 (inductive) from any table state")))
         for op in ("serviceReceivesAllIx", "serviceTxesAllIx", "serviceAll"):
-            out.append(Ob("%s/%s" % (cls, op), h, dict(tls=tls, op=op, m=0), budget=200, covers=["live-entry"],
+            out.append(Ob("%s/%s" % (cls, op), h, dict(tls=tls, op=op, m=0), hang_s=240, budget=200, covers=["live-entry"],
                           bounds=dict(base, recv=["EAGAIN", "closed by peer", "one chunk"],
                                       steps="1 (inductive) from any table state without closed-live / pending entries")))
     return out
